@@ -351,6 +351,290 @@ def gen_switch(mod, out):
         raise U("Broker.__init__ no longer stores its first argument as remote_tubref")
 
 
+# ------------------------------------------------------------------ the closed world of switchToBanana
+WATCHED = ("switchToBanana", "sendDecision", "brokerAttached", "doNegotiation")
+
+
+def package_modules(override=None):
+    """[(rel, module AST)] for every module of the package outside test/ -- negotiate.py and pb.py as the other translators of this
+    file see them (pylite.load: new helpers inlined), every other module as it is written.  override: {rel: AST} used instead of the
+    file (the mutation test below)"""
+    import os
+    out = []
+    for d, dirs, files in os.walk(P.SRC):
+        dirs[:] = sorted(x for x in dirs if x not in ("test", "__pycache__"))
+        for f in sorted(files):
+            if not f.endswith(".py"):
+                continue
+            path = os.path.join(d, f)
+            rel = os.path.relpath(path, P.SRC)
+            if override and rel in override:
+                out.append((rel, override[rel]))
+            elif rel in ("negotiate.py", "pb.py"):
+                out.append((rel, P.load(rel)))
+            else:
+                if path not in _RAW:
+                    try:
+                        with open(path) as fh:
+                            _RAW[path] = ast.parse(fh.read())
+                    except SyntaxError as e:
+                        raise U("%s does not parse (%s): cannot enumerate the callers of switchToBanana" % (rel, e))
+                out.append((rel, _RAW[path]))
+    return out
+
+
+_RAW = {}
+_OCC = {}
+
+
+def occurrences(mod):
+    """every syntactic occurrence of a WATCHED name in mod: (name, kind, qualified owner, node, chain of enclosing nodes).
+    kinds: def, class, attr (x.NAME, any context), name (bare NAME, any context), str (a string constant equal to NAME: getattr /
+    setattr / __dict__ access), kw (keyword argument), param (parameter), import (imported or aliased name)"""
+    if id(mod) in _OCC and _OCC[id(mod)][0] is mod:
+        return _OCC[id(mod)][1]
+    found = []
+
+    def walk(n, owner, chain):
+        if isinstance(n, (ast.FunctionDef, ast.AsyncFunctionDef)):
+            if n.name in WATCHED:
+                found.append((n.name, "def", owner, n, chain))
+            owner = (owner + "." if owner else "") + n.name
+        elif isinstance(n, ast.ClassDef):
+            if n.name in WATCHED:
+                found.append((n.name, "class", owner, n, chain))
+            owner = (owner + "." if owner else "") + n.name
+        elif isinstance(n, ast.Attribute) and n.attr in WATCHED:
+            found.append((n.attr, "attr", owner, n, chain))
+        elif isinstance(n, ast.Name) and n.id in WATCHED:
+            found.append((n.id, "name", owner, n, chain))
+        elif isinstance(n, ast.Constant) and isinstance(n.value, (str, bytes)) and \
+                (n.value.decode("latin-1") if isinstance(n.value, bytes) else n.value) in WATCHED:
+            found.append((n.value if isinstance(n.value, str) else n.value.decode("latin-1"), "str", owner, n, chain))
+        elif isinstance(n, ast.keyword) and n.arg in WATCHED:
+            found.append((n.arg, "kw", owner, n, chain))
+        elif isinstance(n, ast.arg) and n.arg in WATCHED:
+            found.append((n.arg, "param", owner, n, chain))
+        elif isinstance(n, ast.alias) and (n.name.split(".")[-1] in WATCHED or n.asname in WATCHED):
+            found.append((n.asname if n.asname in WATCHED else n.name.split(".")[-1], "import", owner, n, chain))
+        elif isinstance(n, (ast.Global, ast.Nonlocal)) and any(x in WATCHED for x in n.names):
+            found.append(([x for x in n.names if x in WATCHED][0], "import", owner, n, chain))
+        for c in ast.iter_child_nodes(n):
+            walk(c, owner, chain + [n])
+    walk(mod, "", [])
+    _OCC[id(mod)] = (mod, found)
+    return found
+
+
+def nodoc(stmts):
+    return [x for x in stmts if not (isinstance(x, ast.Expr) and isinstance(x.value, ast.Constant))]
+
+
+def gen_entry(mod, out, override=None):
+    """WHO CAN REACH switchToBanana / Tub.brokerAttached.  lib/IdentityBytes.v lets a Broker be created and registered from exactly two
+    places: handleENCRYPTED's accepted hello at the deciding end (evaluateNegotiationVersion1 -> sendDecision -> switchToBanana) and
+    handleDECIDING.  That is a statement about the WHOLE package, so it is read from the whole package: every syntactic occurrence of
+    the names switchToBanana, sendDecision, brokerAttached and doNegotiation outside test/ (attribute, bare name, string constant equal
+    to the name, keyword, parameter, import, definition) has to be one of the sites listed here, in the listed form; anything else --
+    a new caller, a bound-method reference stored somewhere, getattr by name -- is refused.
+
+    Negotiation.connectionMade holds a third call, `else: self.switchToBanana({})`, taken when `self.doNegotiation` is false: it would
+    register self.target (client) with no check at all.  It is accepted only as the else-branch of `if self.doNegotiation:` and only
+    when doNegotiation is the class constant True of Negotiation and nothing in the package stores to that name (no assignment to an
+    attribute or a bare name doNegotiation, no keyword, no setattr-able string); then the branch is dead and the model starts at
+    b_init.  (A subclass defined outside the package that overrides these is outside what any translator of this file reads; inside
+    the package a class deriving from Negotiation is refused.)"""
+    mods = package_modules(override)
+    occ = [(rel,) + o for rel, m in mods for o in occurrences(m)]
+
+    def where(o):
+        rel, name, kind, owner, node, chain = o
+        return "%s:%s %s of %s in %s" % (rel, getattr(node, "lineno", "?"), kind, name, owner or "<module>")
+    # classes deriving from Negotiation inside the package
+    for rel, m in mods:
+        for n in ast.walk(m):
+            if isinstance(n, ast.ClassDef) and any(un(b).split(".")[-1] == "Negotiation" for b in n.bases):
+                raise U("%s: class %s derives from Negotiation (it may override connectionMade / switchToBanana / doNegotiation)" % (rel, n.name))
+    cls = P.find_class(mod, "Negotiation")
+    # ---- doNegotiation
+    dn = [s for s in cls.body if isinstance(s, (ast.Assign, ast.AnnAssign, ast.AugAssign))
+          and any(isinstance(t, ast.Name) and t.id == "doNegotiation" for t in ast.walk(s))]
+    if len(dn) != 1 or not isinstance(dn[0], ast.Assign) or len(dn[0].targets) != 1 or un(dn[0].targets[0]) != "doNegotiation" \
+            or not isinstance(dn[0].value, ast.Constant) or dn[0].value.value is not True:
+        raise U("Negotiation.doNegotiation is not the class constant True (%s): connectionMade would call switchToBanana -- register "
+                "the dialled TubRef -- without any negotiation" % "; ".join(un(s) for s in dn))
+    cm = P.find_def(mod, "Negotiation.connectionMade")
+    cmb = nodoc(cm.body)
+    if [a.arg for a in cm.args.args] != ["self"] or len(cmb) != 1 or not isinstance(cmb[0], ast.If) or un(cmb[0].test) != "self.doNegotiation":
+        raise U("connectionMade: expected a single `if self.doNegotiation:` statement")
+    neg = cmb[0]
+    if len(neg.body) != 1 or not isinstance(neg.body[0], ast.If) or un(neg.body[0].test) != "self.isClient" \
+            or [un(x) for x in neg.body[0].body] != ["self.connectionMadeClient()"] \
+            or [un(x) for x in neg.body[0].orelse] != ["self.connectionMadeServer()"]:
+        raise U("connectionMade: the negotiating branch is no longer `if self.isClient: connectionMadeClient() else: connectionMadeServer()`")
+    orelse = [un(x) for x in neg.orelse]
+    if orelse not in ([], ["self.switchToBanana({})"]):
+        raise U("connectionMade: the non-negotiating branch is %r" % orelse)
+    sites = {}           # id(node) -> site name, for every accepted occurrence
+
+    def accept(o, site):
+        sites[id(o[4])] = site
+    for o in occ:
+        rel, name, kind, owner, node, chain = o
+        parent = chain[-1] if chain else None
+        gparent = chain[-2] if len(chain) > 1 else None
+        is_call_stmt = kind == "attr" and isinstance(parent, ast.Call) and parent.func is node and isinstance(gparent, ast.Expr) \
+            and isinstance(node.ctx, ast.Load)
+        fn = next((c for c in reversed(chain) if isinstance(c, (ast.FunctionDef, ast.AsyncFunctionDef, ast.Lambda))), None)
+        top = is_call_stmt and fn is not None and not isinstance(fn, ast.Lambda) and gparent in fn.body      # a top-level statement of its method
+        if name == "doNegotiation":
+            if rel == "negotiate.py" and kind == "name" and node is dn[0].targets[0]:
+                accept(o, "const")
+            elif rel == "negotiate.py" and kind == "attr" and node is neg.test:
+                accept(o, "test")
+            else:
+                raise U("doNegotiation is mentioned outside its definition and connectionMade's test: " + where(o))
+        elif name == "switchToBanana":
+            if rel == "negotiate.py" and kind == "def" and owner == "Negotiation" and node in cls.body:
+                accept(o, "def")
+            elif rel == "negotiate.py" and is_call_stmt and owner == "Negotiation.connectionMade" and neg.orelse and gparent is neg.orelse[0]:
+                accept(o, "SwConnectionMadeWithoutNegotiation")
+            elif rel == "negotiate.py" and top and owner == "Negotiation.sendDecision" and un(parent) == "self.switchToBanana(params)" \
+                    and gparent is fn.body[-1]:
+                accept(o, "SwSendDecision")
+            elif rel == "negotiate.py" and top and owner == "Negotiation.handleDECIDING" and un(parent) == "self.switchToBanana(params)" \
+                    and gparent is fn.body[-1] and len(fn.body) >= 2 and un(fn.body[-2]) == "params = self.acceptDecision(decision)":
+                accept(o, "SwHandleDeciding")
+            else:
+                raise U("switchToBanana is reached from a place the model does not know: " + where(o))
+        elif name == "sendDecision":
+            if rel == "negotiate.py" and kind == "def" and owner == "Negotiation" and node in cls.body:
+                accept(o, "def")
+            elif rel == "negotiate.py" and is_call_stmt and owner == "Negotiation.evaluateNegotiationVersion1" \
+                    and un(parent) == "self.sendDecision(decision, params)":
+                accept(o, "SdEvaluate")
+            elif rel == "negotiate.py" and kind == "attr" and owner == "Negotiation.sendDecision" and isinstance(parent, ast.Call) \
+                    and node in parent.args and un(parent.func) in ("self.debug_doTimer", "self.debug_addTimerCallback") \
+                    and [un(a) for a in parent.args][-3:] == ["self.sendDecision", "decision", "params"] and un(node.value) == "self":
+                accept(o, "SdTimer")       # the test hooks re-schedule the same call with the same arguments (_test_options: trusted unset)
+            elif rel == "negotiate.py" and kind == "str" and owner == "Negotiation.sendDecision" and isinstance(parent, ast.Call) \
+                    and parent.args and parent.args[0] is node and un(parent.func) == "self.debug_doTimer":
+                accept(o, "SdTimerName")   # the NAME of the test timer, not an attribute lookup
+            else:
+                raise U("sendDecision is reached from a place the model does not know: " + where(o))
+        elif name == "brokerAttached":
+            if rel == "pb.py" and kind == "def" and owner == "Tub":
+                accept(o, "def")
+            elif rel == "negotiate.py" and top and owner == "Negotiation.switchToBanana" \
+                    and un(parent) == "self.tub.brokerAttached(theirTubRef, b, self.isClient)":
+                accept(o, "BaSwitch")
+            elif rel == "pb.py" and top and owner == "Tub._createLoopbackBroker" and un(parent) == "self.brokerAttached(tubref, b1, False)":
+                accept(o, "BaLoopback")
+            else:
+                raise U("Tub.brokerAttached is reached from a place the model does not know: " + where(o))
+    got = sorted(sites.values())
+    want = ["BaLoopback", "BaSwitch", "SdEvaluate", "SdTimer", "SdTimer", "SdTimerName", "SwHandleDeciding", "SwSendDecision", "const", "def", "def", "def", "test"]
+    if [x for x in got if x != "SwConnectionMadeWithoutNegotiation"] != want:
+        raise U("the callers of switchToBanana / sendDecision / brokerAttached are not the expected ones: %r" % got)
+    # sendDecision inside evaluateNegotiationVersion1: in the deciding end's branch, after the identity checks
+    ev1 = the_ev1(mod)
+    ends = [i for i, s in enumerate(ev1.body) if isinstance(s, ast.If) and un(s.test) == "self.isClient"]
+    holders = [i for i, s in enumerate(ev1.body) if isinstance(s, ast.If) and un(s.test) == "iAmTheMaster"
+               and any(isinstance(x, ast.Expr) and un(x.value) == "self.sendDecision(decision, params)" for x in s.body)]
+    if len(ends) != 1 or len(holders) != 1 or holders[0] < ends[0]:
+        raise U("evaluateNegotiationVersion1: self.sendDecision(decision, params) is not a statement of a top-level `if iAmTheMaster:` "
+                "after the identity checks")
+    sd = P.find_def(mod, "Negotiation.sendDecision")
+    if [a.arg for a in sd.args.args] != ["self", "decision", "params"]:
+        raise U("sendDecision signature changed")
+    for n in ast.walk(sd):
+        if isinstance(n, ast.Name) and n.id == "params" and not isinstance(n.ctx, ast.Load):
+            raise U("sendDecision rebinds params")
+    has_cm = "SwConnectionMadeWithoutNegotiation" in got
+    out.append("(* EVERY place in the package (outside test/) from which Negotiation.switchToBanana is called; enumerated over all modules,\n"
+               "   any other mention of switchToBanana / sendDecision / brokerAttached is refused by the translator *)\n"
+               "Inductive switch_site := SwConnectionMadeWithoutNegotiation | SwSendDecision | SwHandleDeciding.\n"
+               "Definition switch_sites : list switch_site := [%sSwSendDecision; SwHandleDeciding].\n"
+               "(* Negotiation.doNegotiation: a class constant; nothing in the package stores to that name *)\n"
+               "Definition do_negotiation : bool := true.\n"
+               "(* Negotiation.connectionMade: is switchToBanana({}) called before a single byte was read? *)\n"
+               "Definition connection_made_switches (doNegotiation : bool) : bool := %s."
+               % ("SwConnectionMadeWithoutNegotiation; " if has_cm else "", "negb doNegotiation" if has_cm else "false"))
+
+
+def _append_to(mod, qual, text):
+    parts = qual.split(".")
+    body = mod.body
+    for name in parts:
+        node = [n for n in body if isinstance(n, (ast.FunctionDef, ast.ClassDef)) and n.name == name][0]
+        body = node.body
+    body.extend(ast.parse(text).body)
+
+
+def _set_do_negotiation(mod, value):
+    cls = [n for n in mod.body if isinstance(n, ast.ClassDef) and n.name == "Negotiation"][0]
+    st = [x for x in cls.body if isinstance(x, ast.Assign) and un(x.targets[0]) == "doNegotiation"][0]
+    st.value = ast.Constant(value=value)
+
+
+# every entry: (name, module, edit of that module's AST).  Each one opens a path to switchToBanana / Tub.brokerAttached that the
+# model does not have, WITHOUT touching any statement the other translators of this file read.
+CLOSED_WORLD_MUTANTS = [
+    ("doNegotiation = False", "negotiate.py", lambda m: _set_do_negotiation(m, False)),
+    ("switchToBanana appended to sendHello", "negotiate.py", lambda m: _append_to(m, "Negotiation.sendHello", "self.switchToBanana({})")),
+    ("switchToBanana from connection.py", "connection.py",
+     lambda m: m.body.extend(ast.parse("def _skip(n):\n    n.switchToBanana({})").body)),
+    ("brokerAttached from Listener", "pb.py",
+     lambda m: _append_to(m, "Listener", "def adopt(self, tubref, b):\n    self._tub.brokerAttached(tubref, b, False)")),
+    ("doNegotiation = None", "negotiate.py", lambda m: _set_do_negotiation(m, None)),
+    ("switchToBanana by name (getattr) in sendHello", "negotiate.py",
+     lambda m: _append_to(m, "Negotiation.sendHello", "getattr(self, 'switchToBanana')({})")),
+    ("switchToBanana from a new method of Negotiation", "negotiate.py",
+     lambda m: _append_to(m, "Negotiation", "def fastPath(self):\n    self.switchToBanana({})")),
+    ("bound switchToBanana kept for later in initClient", "negotiate.py",
+     lambda m: _append_to(m, "Negotiation.initClient", "self._go = self.switchToBanana")),
+    ("sendDecision called from handleENCRYPTED's caller side (sendHello)", "negotiate.py",
+     lambda m: _append_to(m, "Negotiation.sendHello", "self.sendDecision({}, {})")),
+    ("instance attribute doNegotiation stored in initServer", "negotiate.py",
+     lambda m: _append_to(m, "Negotiation.initServer", "self.doNegotiation = listener.doNegotiation")),
+    ("class attribute stored from pb.py", "pb.py", lambda m: m.body.extend(ast.parse("negotiate.Negotiation.doNegotiation = False").body)),
+    ("setattr by name from connection.py", "connection.py",
+     lambda m: m.body.extend(ast.parse("def _plain(n):\n    setattr(n, 'doNegotiation', False)").body)),
+    ("subclass of Negotiation in the package", "negotiate.py",
+     lambda m: m.body.extend(ast.parse("class QuickNegotiation(Negotiation):\n    pass").body)),
+]
+
+
+def closed_world_selftest(limit=None):
+    """MUTATION TEST of gen_entry, run on every check: one edit is applied to the AST of one module of the package (nothing is written
+    anywhere) and gen_entry must refuse the package with that module in place of the file.  -> [(mutant name, as expected?, message)].
+    First row: the package as it is (must be accepted; when it is not, generate() has already failed and the rows say nothing)."""
+    import os
+    from translate import normalize
+    rows = []
+    try:
+        gen_entry(P.load("negotiate.py"), [])
+        rows.append(("unchanged", True, "accepted"))
+    except U as e:
+        return [("unchanged", False, "refused: " + str(e)[:200])]
+    for name, rel, edit in CLOSED_WORLD_MUTANTS[:limit]:
+        m = ast.parse(P.source(rel) if rel in ("negotiate.py", "pb.py") else open(os.path.join(P.SRC, rel)).read())
+        try:
+            edit(m)
+        except (IndexError, KeyError) as e:
+            rows.append((name, True, "anchor of the edit not found in this tree (%s): skipped" % e))
+            continue
+        m = ast.fix_missing_locations(m)
+        if rel in ("negotiate.py", "pb.py") and not os.environ.get("VERIF_NO_NORMALIZE"):
+            m, _log = normalize.normalize(m, rel, P.SRC)
+        try:
+            gen_entry(m if rel == "negotiate.py" else P.load("negotiate.py"), [], override={rel: m})
+            rows.append((name, False, "ACCEPTED"))
+        except U as e:
+            rows.append((name, True, "refused: " + str(e)[:160]))
+    return rows
+
+
 def gen_lookup(mod, out):
     hp = P.find_def(mod, "Negotiation.handlePLAINTEXTServer")
     src = un(hp)
@@ -1001,13 +1285,19 @@ def gen_plaintext(mod, out):
         term, kd = bg.env["targetTubID"]
         if kd != "str":
             raise U("handlePLAINTEXTServer: targetTubID is not text")
-        return ("(let requested := %s in\n if %s then Ok tt else if redirect requested then Exc \"%s\" else Exc \"%s\")"
-                % (term, lookup_cmp(), redirect_exc, unknown))
+        tails.append((lookup_cmp(), redirect_exc, unknown))
+        return "Ok %s" % term
+    tails = []
     bg = BG(consts, final_server)
 
     def nofinal():
         raise U("handlePLAINTEXTServer: fell off the end without the listener lookup")
     srv = bg.block(hp.body, nofinal)
+    # every path that does not raise ends in the SAME tail (the lookup and the `if tub:` dispatch; the translator above puts the rest of
+    # the method after each branch, so the tail can be reached more than once in the text, always with the same three facts)
+    if not tails or len(set(tails)) != 1:
+        raise U("handlePLAINTEXTServer: the listener lookup is reached in %d different forms" % len(set(tails)))
+    cmp_, redirect_exc, unknown = tails[0]
     # ---- client
     hc = P.find_def(mod, "Negotiation.handlePLAINTEXTClient")
     if [a.arg for a in hc.args.args] != ["self", "header"]:
@@ -1026,12 +1316,20 @@ def gen_plaintext(mod, out):
     seb = [un(x) for x in se.body if not (isinstance(x, ast.Expr) and (isinstance(x.value, ast.Constant) or un(x.value.func) == "self.log"))]
     if seb != ["self.startTLS(self.tub.myCertificate)", "self.receive_phase = ENCRYPTED", "self.sendHello()"]:
         raise U("startENCRYPTED changed: %r" % seb)
-    out.append("Section Plain.\nVariable decode : list Z -> option (list Z).   (* six.ensure_str on bytes; None = UnicodeDecodeError *)\n\n"
-               "(* Negotiation.handlePLAINTEXTServer, statement by statement; my_id = listener._tub.tubID, redirect = truthiness of\n"
+    out.append("(* the tail of handlePLAINTEXTServer: `tub, redirect = self.listener.lookupTubID(targetTubID)` (Listener.lookupTubID's test) and the\n"
+               "   `if tub: .. elif redirect: sendRedirect .. else: raise` dispatch; my_id = listener._tub.tubID, redirect = truthiness of\n"
                "   listener._redirects.get(.); Ok = sendPlaintextServerAndStartENCRYPTED was reached *)\n"
-               "Definition plaintext_server_guard (my_id : list Z) (redirect : list Z -> bool) (header : list Z) : res unit :=\n %s.\n\n"
+               "Definition listener_dispatch (my_id : list Z) (redirect : list Z -> bool) (requested : list Z) : res unit :=\n"
+               " if %s then Ok tt else if redirect requested then Exc \"%s\" else Exc \"%s\".\n\n"
+               "Section Plain.\nVariable decode : list Z -> option (list Z).   (* six.ensure_str on bytes; None = UnicodeDecodeError *)\n\n"
+               "(* Negotiation.handlePLAINTEXTServer, statement by statement, up to the listener lookup: Ok t = the method reached\n"
+               "   self.listener.lookupTubID(targetTubID) with targetTubID = t; Exc = it raised before *)\n"
+               "Definition plaintext_server_requested (header : list Z) : res (list Z) :=\n %s.\n\n"
+               "(* Negotiation.handlePLAINTEXTServer as a whole: Ok = sendPlaintextServerAndStartENCRYPTED was reached *)\n"
+               "Definition plaintext_server_guard (my_id : list Z) (redirect : list Z -> bool) (header : list Z) : res unit :=\n"
+               " match plaintext_server_requested header with\n | Ok requested => listener_dispatch my_id redirect requested\n | Exc w => Exc w\n end.\n\n"
                "(* Negotiation.handlePLAINTEXTClient, statement by statement; Ok = startENCRYPTED was reached *)\n"
-               "Definition plaintext_client_guard (header : list Z) : res unit :=\n %s.\nEnd Plain." % (srv, cli))
+               "Definition plaintext_client_guard (header : list Z) : res unit :=\n %s.\nEnd Plain." % (cmp_, redirect_exc, unknown, srv, cli))
 
 
 HANDLERS = {"self.handlePLAINTEXTClient(header)": "HPlaintextClient", "self.handlePLAINTEXTServer(header)": "HPlaintextServer",
@@ -1291,6 +1589,7 @@ def generate():
     gen_peer(out)
     gen_phases(mod, out)
     gen_switch(mod, out)
+    gen_entry(mod, out)
     gen_lookup(mod, out)
     gen_inbound(out)
     gen_tub(out)
